@@ -17,7 +17,7 @@ ID = "C20"
 TECHNIQUE = "runtime monitoring: state hook on the matplotlib Axes after plotting, paths parsed back and compared with the exact snapshot"
 LEVEL = "exploration"
 RULE = ("random shapes of every kind (simple, connected, disjoint, unbounded, Empty, Whole) with segments of degree "
-        "1, 2, 3 and mixed chains, all numeric kinds, plotted on a fresh Agg figure; non-trivial = a shape with at least "
+        "1, 2, 3 and mixed chains, one-segment loops, boundaries with redundant nodes left by split, all numeric kinds, plotted on a fresh Agg figure (one axes, or the first of two axes); non-trivial = a shape with at least "
         "one boundary whose patches were parsed and compared; distinct = distinct shape specs")
 ASSUMPTIONS = [
     "matplotlib Path semantics: MOVETO / LINETO / CURVE3 x2 / CURVE4 x3 / CLOSEPOLY (whose vertex is ignored)",
